@@ -1,5 +1,5 @@
 #![allow(dead_code)]
 use parity_scale_codec::{Compact, Decode, Encode};
-#[derive(parity_scale_codec::CompactAs)]
-pub struct T { a: u32, b: u8 }
+#[derive(Encode, Decode)]
+pub struct T { pub f0: u32, #[codec(skip)] #[codec(compact)] pub f1: u64 }
 fn main() {}
